@@ -505,6 +505,12 @@ def accessor_branches(ctx: Ctx, rule: str, names):
                              and "isinstance(index" in norm(n_.test) for n_ in walk_no_nested(g.node)) \
                 and sl_guard[0] in [c_[0] for c_ in _cg(m1[0], pm_)] + [ctext("isinstance(index, slice)")[0]]
         ok = ok_slice and ok_m1 and int_branch
+        rebinds = [s_ for s_ in walk_no_nested(g.node) if (isinstance(s_, ast.AugAssign) and norm(s_.target) == "index")
+                   or (isinstance(s_, ast.Assign) and any(norm(t_) == "index" for t_ in s_.targets))]
+        for s_ in rebinds:
+            by_len_self = norm(s_.value).replace(" ", "") in ("len(self)", "index+len(self)", "len(self)+index")
+            ctx.ob(rule, g, s_, by_len_self, "the index selects the index-th instance of the generator: it is used as given (or normalised "
+                   "by the number of instances, len(self))" + ("" if by_len_self else " -- `%s` shifts it by something else" % norm(s_)[:60]), node=s_)
         ctx.ob(rule, g, "%s: int / -1 / slice branches" % nm, ok,
                "integer indexing takes element [index, index+1) of the generator (the last one for -1, where that window "
                "would be empty) and slicing passes start/stop/step through", node=g.node)
@@ -562,6 +568,12 @@ def r11_5(ctx: Ctx, rule="R11.5"):
             okc = False
     else:
         okc = False
+    # the verdict "they match" is given only after every residue has been walked
+    early_true = [r_ for l_ in walk_no_nested(chk.node) if isinstance(l_, (ast.For, ast.While)) for r_ in ast.walk(l_)
+                  if isinstance(r_, ast.Return) and isinstance(r_.value, ast.Constant) and r_.value.value is True]
+    if early_true:
+        ctx.ob(rule, chk, early_true[0], False, "every atom of every residue is compared before the answer is True -- `return True` inside "
+               "the loop answers after the first residue (or atom)", node=early_true[0])
     if (okc and inc_ok) or outer:
         ctx.ob(rule, chk, "atom-by-atom comparison", okc and inc_ok,
                "atom counts must agree, and atom i of the concatenated residues must have the residue name and atom name "
